@@ -149,7 +149,7 @@ func oracleC15(c *props.Case) props.Verdict {
 		return props.FailV("ios:banner-changes-result", "final running/startup configuration differs with banners\n%s", ctx())
 	}
 	// a 0:01:00 banner must be answered by re-arming before the next change
-	joined := joinedSecond(sc)
+	joined := joinedOf(sc, ref)
 	idx := -1
 	for i, l := range o.Lines {
 		if l.Class == "change" {
@@ -191,7 +191,7 @@ const sigF39 = "ios:F39-banner-after-echo-of-first-joined-command-drains-second-
 // time-out 0, which drains whatever the expect buffer holds - possibly the
 // (partial) answer to the second command.
 func isF39(sc *Scenario, ref *Outcome) bool {
-	joined := joinedSecond(sc)
+	joined := joinedOf(sc, ref)
 	idx := -1
 	for _, l := range ref.Lines {
 		if l.Class != "change" {
